@@ -420,6 +420,45 @@ def run_oracles(pid, tier, seed, stats, log, mult=1, known_hits=None):
     return v, per
 
 
+def fresh_process_check(corr_broken, seed):
+    import suites as S
+    import tempfile
+    reqs, inproc = [], []
+    for b in corr_broken:
+        r = b['request']
+        calls = [dict(c, op='join') for c in r.get('calls', [])] if r.get('op') == 'session' else ([r] if r.get('op') == 'join' else [])
+        outs = b['real']['ok']['outcomes'] if r.get('op') == 'session' and 'ok' in b['real'] else [b['real']]
+        for c, o in zip(calls, outs):
+            if c.get('ltable') is not None and c.get('rtable') is not None and isinstance(c.get('tokenizer'), dict) and c['tokenizer'].get('kind'):
+                reqs.append(c)
+                inproc.append((o, r.get('op') == 'session' or c.get('which') in S.UNORDERED_JOINS))
+    reqs, inproc = reqs[:12], inproc[:12]
+    out = []
+    for c, o in zip(reqs, inproc):
+        with tempfile.NamedTemporaryFile('w', suffix='.json', dir=os.path.join(VERIF, '.cache'), delete=False) as fh:
+            json.dump([c], fh)
+            path = fh.name
+        rc, txt = sh([sys.executable, os.path.join(VERIF, 'tools', 'harness', 'suites.py'), '--fresh-join', path], timeout=600,
+                     env=dict(os.environ, PYTHONWARNINGS='ignore'))
+        os.remove(path)
+        try:
+            fresh = json.loads(txt.strip().splitlines()[-1])[0]
+        except Exception:      # noqa: BLE001
+            continue
+        o, as_multiset = o
+        # the stored in-process answer is already in the suite's normal form; bring the fresh one into the same form
+        a = S.norm_scores(json.loads(json.dumps(fresh)))
+        if as_multiset:
+            a = S.norm_multiset(a)
+        b2 = json.loads(json.dumps(o))
+        a.pop('flag', None)
+        b2.pop('flag', None)
+        if json.dumps(a, sort_keys=True) != json.dumps(b2, sort_keys=True):
+            out.append({'property': 'C12', 'what': '%s_join: the result after earlier calls in the same process differs from the result of the same call in a fresh interpreter' % c.get('which'),
+                        'case': {'entry': 'fresh-vs-history', 'request': c}, 'expected': a, 'actual': b2, 'oracle': 'fresh-process', 'seed': seed, 'n': 1})
+    return out
+
+
 def arithmetic_witness_search(pid, tier, stats):
     """§5-1: enumerate (measure, t, n, k, minimal qualifying o) with the REAL filter_utils and test the inequalities the
     proofs rest on; every hit is turned into an adversarial table pair and run through the real join."""
@@ -600,6 +639,10 @@ def main():
             broken.append({'kind': 'correspondence', 'detail': '%d mismatches; first in suite %s' % (len(corr_broken), corr_broken[0]['suite']),
                            'first': {k2: corr_broken[0][k2] for k2 in ('suite', 'request', 'model', 'real')}})
         searched = {}
+        if pid == 'C12' and corr_broken and not real_viol:
+            # §5-4 for C12: is the disagreement itself a history dependence?  Re-run each disagreeing join call in a FRESH
+            # interpreter (no earlier call can have influenced it) and compare with what the long-running process returned.
+            real_viol += fresh_process_check(corr_broken, seed)
         if broken and not real_viol:
             # §5: a proof obligation or the correspondence no longer checks — look for a concrete failing input on the real code
             log.append('tie broken (%s): searching the real code for a failing input' % ', '.join(sorted(set(x['kind'] for x in broken))))
